@@ -28,6 +28,22 @@
 //     scheduler goroutine only) is checked with porcupine against the same
 //     sequential specification.
 //
+// Context seams: the context handed to a waitAndLock / get can be a wrapper
+// (gtSeamCtx) whose Done() and Err() methods are scheduling points. The code
+// under test evaluates ctx.Done() when it enters its blocking select, i.e. in the
+// window between its non-blocking fast path and the blocking select; an actor
+// parked there (when the plan arms the operation) lets the scheduler run
+// unlock(true) / put and the cancellation of that very context "inside the
+// window", so that the select is entered with both arms ready. Which ready arm
+// a Go select takes is the runtime's choice: the plan draws the outcome it wants
+// and the run is re-executed (same plan, same tape) until the observed outcome
+// matches, a bounded number of times; both outcomes are legal and the model
+// adopts the observed one. Err() parks the same way (a goroutine descheduled
+// between a select firing and its call of ctx.Err()). While an actor is parked
+// in a seam the blocked-operation oracles are suspended (another operation may
+// legitimately wait for the parked one); they are evaluated again at the next
+// quiescent point after the resume.
+//
 // Latitude accepted (see the final report / engines/gates.json): waitAndLock /
 // get with an already-cancelled context may either fail with the context error
 // or succeed when the condition is set; get on a closed queue that still holds
@@ -140,6 +156,20 @@ type gtElem struct {
 	Ctx  int  // waitAndLock/get: context index, -1 = context.Background()
 	Set  bool // gate mode: argument of the unlock that follows a successful acquire
 	Val  int  // put: item; close: error index; cancel: context index
+	// waitAndLock/get: context seams armed for this operation.
+	Win   uint8 // 0: none; Done() parks once, and when both arms are ready at the resume the plan wants 1: the gate, 2: the context error
+	EPark bool  // Err() parks once
+}
+
+func (e gtElem) seams() string {
+	s := ""
+	if e.Win != 0 {
+		s += "@win" + map[uint8]string{1: "+", 2: "-"}[e.Win]
+	}
+	if e.EPark {
+		s += "@err"
+	}
+	return s
 }
 
 func (e gtElem) String() string {
@@ -147,9 +177,9 @@ func (e gtElem) String() string {
 	case gtLock, gtLockIfSet:
 		return fmt.Sprintf("%s;unlock(%v)", gtKindName[e.Kind], e.Set)
 	case gtWaitAndLock:
-		return fmt.Sprintf("waitAndLock(c%d);unlock(%v)", e.Ctx, e.Set)
+		return fmt.Sprintf("waitAndLock(c%d)%s;unlock(%v)", e.Ctx, e.seams(), e.Set)
 	case gtGet:
-		return fmt.Sprintf("get(c%d)", e.Ctx)
+		return fmt.Sprintf("get(c%d)%s", e.Ctx, e.seams())
 	case gtPut:
 		return fmt.Sprintf("put(%d)", e.Val)
 	case gtClose:
@@ -206,6 +236,10 @@ func gtDrawPlan(rt *rapid.T) *gtPlan {
 		closeW = vs.Pick(c, 1, 0, 3)
 	}
 	drawCtx := func() int { return c.Intn(p.NCtx+1) - 1 }
+	drawSeams := func(e *gtElem) {
+		e.Win = [...]uint8{0, 1, 2, 0, 0, 0}[c.Intn(6)]
+		e.EPark = c.Intn(3) == 1
+	}
 	val, ncl := 0, 0
 	for a := 0; a < nact; a++ {
 		n := vs.Range(c, 1, maxLen)
@@ -217,6 +251,7 @@ func gtDrawPlan(rt *rapid.T) *gtPlan {
 				switch {
 				case x < 9:
 					e.Kind, e.Ctx = gtGet, drawCtx()
+					drawSeams(&e)
 				case x < 18:
 					val++
 					e.Kind, e.Val = gtPut, val
@@ -231,6 +266,7 @@ func gtDrawPlan(rt *rapid.T) *gtPlan {
 					e.Kind = gtLock
 				case x < 15:
 					e.Kind, e.Ctx = gtWaitAndLock, drawCtx()
+					drawSeams(&e)
 				default:
 					e.Kind = gtLockIfSet
 				}
@@ -260,6 +296,11 @@ type gtOp struct {
 	rv        int    // get: item, or close-error index when re == 2
 	re        int    // 0 nil | 1 context.Canceled | 2 a close error | 3 anything else
 	retxt     string // text of an unexpected error
+	seamed    bool   // has been parked in a context seam
+	resumed   int64  // stamp of the step that resumed the operation from a context seam
+	winBoth   bool   // resumed from the Done() window with both select arms ready
+	winWant   uint8  // ... and the outcome the plan wants then (1 gate, 2 context error)
+	lax       bool   // released while another actor was parked in a context seam (see gtGateStep, lockIfSet)
 }
 
 func (o *gtOp) in() string {
@@ -334,7 +375,10 @@ func gtGateStep(s gtGateState, o *gtOp) (gtGateState, bool) {
 			s.locked = true
 			return s, true
 		}
-		return s, s.locked || !s.set
+		// (lax: an implementation may call the context's methods while it holds
+		// the gate; an operation parked there by the harness has then acquired the
+		// gate without having returned yet, which the step model cannot see.)
+		return s, s.locked || !s.set || o.lax
 	case gtWaitAndLock:
 		switch o.re {
 		case 0:
@@ -528,9 +572,70 @@ type gtActor struct {
 	mu     sync.Mutex
 	parked bool
 	label  string
+	oplab  string // label of the operation (label is "resume ..." while parked in a seam)
 	nkind  gtKind
 	narg   int
 	grant  chan *gtOp
+	seam   int // != 0: parked inside the operation in flight, in a context seam
+	want   uint8
+}
+
+const (
+	gtSeamDone = 1 // in ctx.Done(): between waitAndLock's fast path and its blocking select
+	gtSeamErr  = 2 // in ctx.Err()
+)
+
+var gtSeamName = [...]string{"", "in ctx.Done", "in ctx.Err"}
+var gtSeamProbe = [...]string{"", "probe.window_parked", "probe.err_parked"}
+
+// pause parks the actor inside the operation in flight (called by gtSeamCtx on
+// the actor's goroutine, from within the code under test) until the scheduler
+// resumes it.
+func (a *gtActor) pause(seam int, want uint8) {
+	if a.h.aborting.Load() {
+		return
+	}
+	a.mu.Lock()
+	a.parked, a.seam, a.want = true, seam, want
+	a.label = "resume " + a.oplab + " [" + gtSeamName[seam] + "]"
+	a.mu.Unlock()
+	vs.G.Inc(gtSeamProbe[seam])
+	<-a.grant
+}
+
+func (a *gtActor) inSeam() int {
+	a.mu.Lock()
+	defer a.mu.Unlock()
+	if !a.parked {
+		return 0
+	}
+	return a.seam
+}
+
+// gtSeamCtx is the context of an operation whose plan element arms a seam.
+// Done may be called more than once per operation (get -> waitAndLock): every
+// seam parks at most once.
+type gtSeamCtx struct {
+	context.Context
+	a     *gtActor
+	win   uint8
+	epark bool
+}
+
+func (c *gtSeamCtx) Done() <-chan struct{} {
+	if w := c.win; w != 0 {
+		c.win = 0
+		c.a.pause(gtSeamDone, w)
+	}
+	return c.Context.Done()
+}
+
+func (c *gtSeamCtx) Err() error {
+	if c.epark {
+		c.epark = false
+		c.a.pause(gtSeamErr, 0)
+	}
+	return c.Context.Err()
 }
 
 func (a *gtActor) isParked() bool {
@@ -546,7 +651,7 @@ func (a *gtActor) step(kind gtKind, arg int) *gtOp {
 	}
 	o := gtOp{kind: kind, arg: arg}
 	a.mu.Lock()
-	a.parked, a.label, a.nkind, a.narg = true, o.in(), kind, arg
+	a.parked, a.label, a.oplab, a.nkind, a.narg = true, o.in(), o.in(), kind, arg
 	a.mu.Unlock()
 	op := <-a.grant
 	if op == nil {
@@ -577,6 +682,7 @@ type gtH struct {
 	qms      []gtQueueState
 
 	races, blockedOps, completed int
+	winMismatch                  int // both-ready windows whose outcome was not the one the plan wants
 }
 
 func (h *gtH) ctx(i int) context.Context {
@@ -584,6 +690,15 @@ func (h *gtH) ctx(i int) context.Context {
 		return context.Background()
 	}
 	return h.ctxs[i]
+}
+
+// opCtx returns the context of a waiting operation of actor a: the plain
+// context, or the seam wrapper around it when the plan arms a seam.
+func (h *gtH) opCtx(a *gtActor, e gtElem) context.Context {
+	if e.Win == 0 && !e.EPark {
+		return h.ctx(e.Ctx)
+	}
+	return &gtSeamCtx{Context: h.ctx(e.Ctx), a: a, win: e.Win, epark: e.EPark}
 }
 
 func (h *gtH) complete(op *gtOp) {
@@ -661,7 +776,7 @@ func (h *gtH) gateActor(a *gtActor, script []gtElem, startHolding bool) {
 			h.complete(op)
 		case gtWaitAndLock:
 			op := a.step(gtWaitAndLock, e.Ctx)
-			err := h.g.waitAndLock(h.ctx(e.Ctx))
+			err := h.g.waitAndLock(h.opCtx(a, e))
 			gtClassify(err, op)
 			if err == nil {
 				holding = true
@@ -691,7 +806,7 @@ func (h *gtH) queueActor(a *gtActor, script []gtElem) {
 			h.complete(op)
 		case gtGet:
 			op := a.step(gtGet, e.Ctx)
-			v, err := h.q.get(h.ctx(e.Ctx))
+			v, err := h.q.get(h.opCtx(a, e))
 			gtClassify(err, op)
 			if err == nil {
 				op.rv = v
@@ -725,11 +840,49 @@ func (h *gtH) cancelActor(a *gtActor) {
 func (h *gtH) release(a *gtActor) {
 	a.mu.Lock()
 	a.parked = false
-	kind, arg := a.nkind, a.narg
+	kind, arg, seam, want := a.nkind, a.narg, a.seam, a.want
+	a.seam = 0
 	a.mu.Unlock()
+	if seam != 0 {
+		// resume the operation in flight from a context seam
+		op := h.inflight[a.id]
+		op.resumed = h.stepCall
+		op.seamed = true
+		if seam == gtSeamDone && h.bothReady(op) {
+			op.winBoth, op.winWant = true, want
+			vs.G.Inc("probe.window_both_ready")
+		}
+		a.grant <- op
+		return
+	}
 	op := &gtOp{actor: a.id, kind: kind, arg: arg, call: h.stepCall}
+	for _, b := range h.actors {
+		if b != a && h.inflight[b.id] != nil && (b.inSeam() != 0 || h.inflight[b.id].seamed) {
+			op.lax = true
+		}
+	}
 	h.inflight[a.id] = op
 	a.grant <- op
+}
+
+// bothReady reports whether, according to the model, an operation that enters
+// its blocking select now finds both arms ready: the condition is set with the
+// gate unlocked, and its context is cancelled.
+func (h *gtH) bothReady(op *gtOp) bool {
+	if op.arg < 0 {
+		return false
+	}
+	for _, s := range h.gms {
+		if !s.locked && s.set && s.cancelled&(1<<op.arg) != 0 {
+			return true
+		}
+	}
+	for _, s := range h.qms {
+		if (s.closed != 0 || s.n() > 0) && s.cancelled&(1<<op.arg) != 0 {
+			return true
+		}
+	}
+	return false
 }
 
 func (h *gtH) Events(now time.Time) []vs.Event {
@@ -742,15 +895,27 @@ func (h *gtH) Events(now time.Time) []vs.Event {
 	var evs []vs.Event
 	for _, a := range parked {
 		a := a
-		evs = append(evs, vs.Event{Label: a.name + ": " + a.label, Weight: 10, Run: func() {
+		w := 10
+		if a.inSeam() != 0 {
+			w = 4 // leave time for others to act while the actor sits in the window
+		}
+		evs = append(evs, vs.Event{Label: a.name + ": " + a.label, Weight: w, Run: func() {
 			h.seq++
 			h.stepCall = h.seq
 			h.release(a)
 		}})
 	}
-	if len(parked) >= 2 && h.plan.RacePct > 0 {
-		w := 10 * len(parked) * h.plan.RacePct / (100 - h.plan.RacePct)
-		evs = append(evs, vs.Event{Label: "race", Weight: max(w, 1), Run: func() { h.race(parked) }})
+	// (An actor parked in a context seam is resumed alone: whether its select then
+	// finds both arms ready is known from the model, see release.)
+	var racers []*gtActor
+	for _, a := range parked {
+		if a.inSeam() == 0 {
+			racers = append(racers, a)
+		}
+	}
+	if len(racers) >= 2 && h.plan.RacePct > 0 {
+		w := 10 * len(racers) * h.plan.RacePct / (100 - h.plan.RacePct)
+		evs = append(evs, vs.Event{Label: "race", Weight: max(w, 1), Run: func() { h.race(racers) }})
 	}
 	return evs
 }
@@ -837,7 +1002,19 @@ func (h *gtH) check() *vs.Violation {
 		h.completed++
 		h.tr.Ev("  %s %s -> %s", h.actors[o.actor].name, o.in(), o.out())
 		kinds = append(kinds, gtKindName[o.kind])
-		if o.call < h.stepCall {
+		if o.winBoth {
+			got := uint8(1) // the gate was taken (nil, an item, or the close error)
+			if o.re == 1 {
+				got = 2
+				vs.G.Inc("probe.window_both_ready_ctxerr")
+			} else {
+				vs.G.Inc("probe.window_both_ready_acquired")
+			}
+			if got != o.winWant {
+				h.winMismatch++
+			}
+		}
+		if o.call < h.stepCall && o.resumed < h.stepCall {
 			woken++
 			if o.kind == gtGet {
 				wokenGet++
@@ -902,6 +1079,19 @@ func (h *gtH) check() *vs.Violation {
 	if len(h.qms) > 1 {
 		vs.G.Inc("probe.model_ambiguous_after_race")
 	}
+	// operations parked in a context seam
+	seamParked := 0
+	for _, a := range h.actors {
+		if a.inSeam() != 0 {
+			seamParked++
+		}
+	}
+	if seamParked > 0 {
+		// An operation blocked now may be waiting for the parked one (an
+		// implementation may call ctx methods while it holds the gate): the
+		// blocked-operation oracles wait for the resume.
+		return nil
+	}
 	// blocked operations
 	var blocked []*gtOp
 	for _, o := range h.inflight {
@@ -962,6 +1152,12 @@ func (h *gtH) drain() (v *vs.Violation, drained int) {
 		op = &gtOp{kind: gtGet, arg: -1}
 		var done atomic.Bool
 		go func() {
+			defer func() {
+				if r := recover(); r != nil { // (not a task of the scheduler: a panic here would kill the process)
+					op.re, op.retxt = 3, fmt.Sprint("panic: ", r)
+					done.Store(true)
+				}
+			}()
 			v, err := h.q.get(ctx)
 			gtClassify(err, op)
 			if err == nil {
@@ -1089,7 +1285,13 @@ var gtProbes = []string{
 	"probe.op_blocked_in_code_under_test", "probe.two_or_more_blocked", "probe.handoff_to_blocked_op",
 	"probe.cancel_wakes_blocked_op", "probe.acquired_despite_cancelled_ctx",
 	"probe.lockifset_true", "probe.lockifset_false", "probe.porcupine_checked", // probe.porcupine_unknown is counted when it happens; zero is the expected value
+	"probe.window_parked", "probe.window_both_ready", "probe.window_both_ready_acquired", "probe.window_both_ready_ctxerr",
+	"probe.err_parked", // probe.window_rerun / probe.window_choice_unmatched are counted when they happen
 }
+
+// gtMaxAttempts bounds the re-executions of a run whose both-ready windows did
+// not take the select arm the plan wants (the choice is the Go runtime's).
+const gtMaxAttempts = 12
 
 var gtQueueProbes = []string{
 	"probe.race_getters_vs_put", "probe.race_close_vs_op", "probe.race_cancel_vs_put_with_getter",
@@ -1107,14 +1309,35 @@ func gtRun(t *testing.T, rt *rapid.T) {
 		}
 	}
 	plan := gtDrawPlan(rt)
-	tape := vs.DrawTape(rt, 256)
-	tr := vs.NewTrace()
-	tr.Ev("plan %s", plan.String())
+	tapeBytes := rapid.SliceOfN(rapid.Byte(), 0, 256).Draw(rt, "tape") // (the draws of vs.DrawTape; every attempt replays the same tape)
+	tapeSeed := rapid.Uint64().Draw(rt, "tapeseed")
+	var tr *vs.Trace
 	var viol *vs.Violation
 	var simDur time.Duration
 	var h *gtH
 	var init any
-	deadlock := vs.Bubble(t, func() {
+	var deadlock string
+	for attempt := 1; ; attempt++ {
+		tr, viol, h, init, simDur, deadlock = gtAttempt(t, plan, vs.NewTape(tapeBytes, tapeSeed))
+		if viol != nil || deadlock != "" || h.winMismatch == 0 {
+			break
+		}
+		if attempt == gtMaxAttempts {
+			vs.G.Inc("probe.window_choice_unmatched")
+			break
+		}
+		vs.G.Inc("probe.window_rerun")
+	}
+	gtFinish(rt, plan, tr, viol, h, init, simDur, deadlock)
+}
+
+// gtAttempt executes the plan once. Everything in it is a function of the plan
+// and the tape, except which of two simultaneously ready select arms the Go
+// runtime takes.
+func gtAttempt(t *testing.T, plan *gtPlan, tape *vs.Tape) (tr *vs.Trace, viol *vs.Violation, h *gtH, init any, simDur time.Duration, deadlock string) {
+	tr = vs.NewTrace()
+	tr.Ev("plan %s", plan.String())
+	deadlock = vs.Bubble(t, func() {
 		sim := vs.NewSim(tape, tr)
 		sim.MaxSteps, sim.Horizon = 600, time.Minute
 		h = &gtH{plan: plan, sim: sim, tr: tr}
@@ -1174,6 +1397,10 @@ func gtRun(t *testing.T, rt *rapid.T) {
 		sim.Abort()
 		simDur = sim.Elapsed()
 	})
+	return
+}
+
+func gtFinish(rt *rapid.T, plan *gtPlan, tr *vs.Trace, viol *vs.Violation, h *gtH, init any, simDur time.Duration, deadlock string) {
 	if deadlock != "" && viol == nil {
 		vs.Harnessf(rt, "bubble ended with blocked goroutines: %s", deadlock)
 	}
